@@ -217,7 +217,19 @@ def run(pid, tier, rng, pools, n=None):
                 res.disagreements.append(runner.Disagreement(res.name, m, req, "ok " + exp if exp != "-" else "err (denotes no value)", co, "spec"))
                 res.disagreements[-1].reading = req1
     res.distinct = len(stage2)
-    res.samples = stage1[:2] + ["skipped: %r; denoting a value: %d of %d" % (skipped, denotes, len(stage2))]
+    feats = {"left-out token": 0, "name": 0, "meridian": 0, "'+' sign": 0, "more than 6 fraction digits": 0,
+             "weekday digit": 0, "extra blanks": 0}
+    for _, _, _, _, words in cases:
+        ks = [w.split(".") for w in words]
+        feats["left-out token"] += any(k[0] == "o" for k in ks)
+        feats["name"] += any(k[0] == "a" for k in ks)
+        feats["meridian"] += any(k[0] == "m" for k in ks)
+        feats["'+' sign"] += any(k[0] == "n" and k[2] == "1" for k in ks)
+        feats["more than 6 fraction digits"] += any(k[0] == "f" and len(k[2]) > 6 for k in ks)
+        feats["weekday digit"] += any(k[0] == "w" for k in ks)
+        feats["extra blanks"] += any(k[0] in "namfpw" and len(k) > 1 and k[1] not in ("0", "") for k in ks)
+    res.samples = stage1[:2] + ["skipped: %r; denoting a value: %d of %d; readings with feature: %r"
+                                % (skipped, denotes, len(stage2), feats)]
     for ext in (".req", ".spec", ".req2", ".crate"):
         try:
             os.remove(base + ext)
